@@ -6,15 +6,16 @@ from ..refgraph import GraphSystem
 
 PROP = 'C09'
 PLANS = {
-    'quick': [('GOPS', 'structure', 4, 1), ('GOPS2', 'structure', 3, 1), ('GOPS', 'all', 3, 2)],
+    'quick': [('GOPS', 'structure', 4, 1), ('GOPS2', 'structure', 3, 1), ('GOPS', 'all', 3, 2),
+              ('GOPS', 'structure', 2, 1, 'auto')],
     'thorough': [('GOPS', 'structure', 5, 1), ('GOPS2', 'structure', 5, 1), ('GOPS', 'all', 4, 2),
                  ('GOPS2', 'all', 4, 2)],
 }
 
 
 def make_system(arg):
-    lang, alpha = arg
-    return GraphSystem({'lang': lang, 'alphabet': alpha})
+    lang, alpha = arg[0], arg[1]
+    return GraphSystem({'lang': lang, 'alphabet': alpha, 'names': arg[2] if len(arg) > 2 else 'plain'})
 
 
 def run(tier, seed, prop=PROP, plans=None, rule_extra=''):
@@ -24,9 +25,11 @@ def run(tier, seed, prop=PROP, plans=None, rule_extra=''):
                 'lookups exact for present and stale keys, attackers <-> nodes) in every state and a functional '
                 'reference for the effect of every operation; distinct = canonical dump of the whole object graph' + rule_extra)
     res.assumptions = ['automatically chosen ids are observed and only constrained to be unique; list orders are not compared']
-    for lang, alpha, depth, K in (plans or PLANS[tier]):
-        reps = engine_hist.explore(make_system, (lang, alpha), depth, K, res, seed, shard=16,
-                                   label=f'[{lang},{alpha},D{depth},K{K}]')
+    for plan in (plans or PLANS[tier]):
+        lang, alpha, depth, K = plan[:4]
+        sysarg = (lang, alpha) + tuple(plan[4:])
+        reps = engine_hist.explore(make_system, sysarg, depth, K, res, seed, shard=16,
+                                   label=f'[{",".join(sysarg)},D{depth},K{K}]')
         for k in sorted(reps)[:2]:
             res.sample({'language': lang, 'alphabet': alpha, 'history': reps[k][0]})
         res.count('distinct_nontrivial', len(reps) - 1)
